@@ -1,8 +1,12 @@
 from common import T_COMMON
 
 STORE_FILES = ["modeling/mesh.go", "modeling/tri.go", "modeling/line.go", "modeling/point.go", "modeling/meshops",
-               "modeling/repeat", "modeling/primitives", "formats/ply/writer.go", "formats/ply/write.go",
-               "formats/obj/writer.go", "formats/stl/write.go"]
+               "modeling/repeat", "modeling/primitives", "formats/ply/writer.go", "formats/ply/write.go", "formats/ply/fs.go",
+               "formats/obj/writer.go", "formats/obj/fs.go", "formats/stl/write.go", "formats/stl/fs.go",
+               "formats/splat/write.go", "formats/spz/write.go",
+               # the glTF writer is a stateful *Writer and takes meshes BY POINTER: scanned with the writer's own state exempted
+               "--own-receiver", "formats/gltf/writer.go", "formats/gltf/write.go", "formats/gltf/fs.go",
+               "formats/gltf/model.go", "formats/gltf/model_trackers.go"]
 
 CFG = dict(
     gen=[dict(tool="facts", mode="c01.stores", out="C01Stores.lean", args=STORE_FILES)],
@@ -34,7 +38,10 @@ CFG = dict(
         "meshes: immutability re-reads as for every mesh; the value of a ragged Append is checked against the SET of outcomes "
         "(c01.holds.append_in_set: pureAppend for some aLen in lengths(a), bLen in lengths(b)); no sharing-graph line and no re-derivation "
         "for ragged arguments; ragged ToPointCloud: immutability only",
-        "formats/gltf writer is outside the static store-site scan (it is a stateful Writer storing into its own buffers); it is covered by the value-level oracle only",
+        "static scan of formats/gltf: memory reached from a receiver/parameter of type *Writer is taken to be the writer's own state (a mesh pointer "
+        "cached inside the Writer and stored through from there would be missed); two sites are excluded by name in the statement of store_sites_fresh "
+        "(knownNonMesh): flattenSkeletonToNodes writes the Skeleton's own children slice (animation data, not mesh memory - see notes: observation), "
+        "obj.Load patches the materials of meshes it has just read before returning them",
         "op_refines / derivations_commute hold for states satisfying the bounds invariant State.Bounded (every slice inside its array); "
         "run_bounded shows it is an invariant from the empty state; over merely Valid states (slices past the end of their array) the "
         "commutation statement derivations_commute_full is not claimed",
@@ -76,7 +83,7 @@ CFG = dict(
              "the internal slice; a caller who later writes through a retained slice changes the mesh. The property speaks of operations (Mesh methods, "
              "meshops, writers); mutation by the caller through retained memory is outside it, the harness never does it, and the theorems model the "
              "caller's slices as fresh arrays nobody else writes. "
-             "formats/gltf writer outside the static scan (value oracle only).",
+             "formats/gltf is in the static scan with the *Writer's own state exempted; every writer in /repo that takes a mesh is an op of the history generator (glTF with the pool's own struct passed by pointer).",
         technique="Lean 4 proof (induction over operation histories on a heap model) + regenerated store-site obligations + heap-shape "
                   "and value correspondence",
     ),
